@@ -16,6 +16,7 @@ import mido.midifiles.midifiles as mf
 from mido import Message, MetaMessage, MidiFile, MidiTrack
 from mido.midifiles.meta import UnknownMetaMessage
 
+from ..core import HarnessAbort
 from ..ref import smf
 from .c13 import FakeTime
 
@@ -113,6 +114,32 @@ def observe(mid, what, seed, consumer_edits=False):
             b = io.BytesIO()
             mid.save(file=b)
             return b.getvalue().hex()
+        if what == 'save-in-another-thread':
+            # whatever earlier (possibly failed) saves and loads did in this thread, another thread can save
+            import threading
+            box = []
+
+            def work():
+                try:
+                    b = io.BytesIO()
+                    mid.save(file=b)
+                    box.append(b.getvalue().hex())
+                except Exception as exc:
+                    box.append(('exc', type(exc).__name__))
+            th = threading.Thread(target=work, daemon=True)
+            th.start()
+            th.join(20.0)
+            if th.is_alive():
+                # is it the machine or the library?  a thread with plain work of its own gets through
+                ctl = threading.Thread(target=lambda: box.append(sum(range(10 ** 5))), daemon=True)
+                ctl.start()
+                ctl.join(20.0)
+                th.join(20.0)
+                if th.is_alive() and not ctl.is_alive():
+                    return 'NEVER FINISHED (another thread got its work done meanwhile)'
+                if th.is_alive():
+                    raise HarnessAbort('threads do not get to run on this machine')
+            return box[0]
         if what == 'save-to-path':
             # path is reused by the edited file (it may hold an older, longer save); fresh for the twin
             path = getattr(mid, '_vmon_path', None)
@@ -148,6 +175,8 @@ def observe(mid, what, seed, consumer_edits=False):
                 mf.time = orig
         if what == 'repr':
             return repr(mid)
+    except HarnessAbort:
+        raise
     except Exception as exc:
         return ('exc', type(exc).__name__)
     raise ValueError(what)
@@ -216,8 +245,32 @@ def do_edit(rng, mid):
         names += ['track+=', 'track+=', 'append-after-end_of_track']
     if rng.random() < 0.03:
         names = ['tracks.clear']
+    if rng.random() < 0.08:
+        names = ['REJECTED:add_track(name=bytes)', 'REJECTED:add_track(name=5)', 'REJECTED:tracks.insert(bad index)']
+        if any(len(t) for t in tracks):
+            names += ['REJECTED:message edits'] * 2
     e = rng.choice(names)
     ne = [t for t in tracks if len(t)]
+    if e.startswith('REJECTED:'):
+        # an edit that is refused is no edit: the file is exactly what it was
+        before = contents(mid)
+        try:
+            if e == 'REJECTED:add_track(name=bytes)':
+                mid.add_track(name=b'Bass')
+            elif e == 'REJECTED:add_track(name=5)':
+                mid.add_track(name=5)
+            elif e == 'REJECTED:tracks.insert(bad index)':
+                tracks.insert('0', rand_track(rng))
+            else:
+                from .. import abuse
+                abuse.failed_edits(rng.choice(rng.choice([t for t in tracks if len(t)])))
+                raise ValueError('all refused')
+            return e + ' WAS ACCEPTED - NO EFFECT expected'
+        except (TypeError, ValueError, AttributeError):
+            pass
+        if contents(mid) != before:
+            return e + ' left something behind - NO EFFECT expected: ' + repr(first_diff(before, contents(mid)))[:200]
+        return e
     if e == 'tracks.append':
         tracks.append(rand_track(rng))
     elif e == 'tracks.insert':
@@ -356,7 +409,8 @@ def do_edit(rng, mid):
     return e
 
 
-OBS = ('iter', 'length', 'merged', 'save', 'play', 'repr', 'save-to-path')
+BLOCKED = []       # set once a save in another thread was seen to hang: not tried again in this process
+OBS = ('iter', 'length', 'merged', 'save', 'play', 'repr', 'save-to-path', 'save-in-another-thread')
 
 
 def history(ctx, seed, maxsteps):
@@ -437,7 +491,14 @@ def _history(ctx, seed, maxsteps, rng, mid, log, own_path):
             before = contents(mid)
             twin = twin_of(mid)
             edits = rng.random() < 0.4
+            if what == 'save-in-another-thread' and BLOCKED:
+                what = 'save'
             got = observe(mid, what, f'{seed}:{i}', consumer_edits=edits)
+            if isinstance(got, str) and got.startswith('NEVER FINISHED'):
+                BLOCKED.append(1)
+                ctx.check('observation == fresh twin', False, 'save-from-another-thread-never-finishes', case,
+                          lambda: {'step': i, 'log': log[-8:], 'what': got})
+                return nontrivial
             after = contents(mid)
             ctx.check('observation leaves the contents alone', before == after,
                       f'{what}-changed-the-file' + ('-through-handed-out-messages' if edits else ''), case,
